@@ -39,6 +39,7 @@ CL = {1101: 'a gene is recorded both up and down for a pair', 1102: 'markers rec
       1103: 'marker outside the requested gene list', 1104: 'marker below a minimum penetrance / fold-change floor',
       1105: 'marker whose Holm-corrected Welch p-value is not below the threshold',
       1106: 'exact penetrance requested but a marker does not pass the strict thresholds',
+      1116: 'exact penetrance requested but a marker has its penetrance exactly on (not above) the strict threshold',
       1107: 'up marker whose mean difference has the other sign', 1108: 'down marker whose mean difference has the other sign',
       1109: 'a gene passing the strict thresholds is not recorded', 1110: 'pair-major and gene-major tables are not transposes',
       1111: 'swapping the order of a pair changes more than the direction',
@@ -72,7 +73,28 @@ def gen_reference(rng):
         clusters.append(cells)
     T = {k: rng.choice(v) for k, v in FR.items()}
     T['pth'] = rng.choice([UNIT // 100, UNIT // 20])
-    conf = {'T': T, 'exact': rng.random() < 0.4, 'n_valid': rng.choice([1, 2, 3, 5, 30]),
+    exact = rng.random() < 0.4
+    if rng.random() < 0.25:
+        # a clearly significant gene whose penetrance sits exactly on the strict threshold q1 = c/d:
+        # cluster 0 has d*m cells, the gene is expressed (value 5..6) in exactly c*m of them and absent elsewhere
+        c, d = T['q1']
+        m = rng.choice([x for x in (2, 3, 4, 5, 6, 10, 12) if 10 <= d * x <= 24])
+        g = rng.randrange(ng)
+        big = []
+        for i in range(d * m):
+            row = [rng.choice([0, 0, 0, 1, 1, 2]) for _ in range(ng)]
+            row[g] = rng.choice([5, 6]) if i < c * m else 0
+            big.append(row)
+        rng.shuffle(big)
+        clusters[0] = big
+        for k in range(1, ncl):
+            n = rng.randint(10, 16)
+            others = [[rng.choice([0, 0, 0, 1, 1, 2]) for _ in range(ng)] for _ in range(n)]
+            for row in others:
+                row[g] = 0
+            clusters[k] = others
+        exact = rng.random() < 0.7
+    conf = {'T': T, 'exact': exact, 'n_valid': rng.choice([1, 2, 3, 5, 30]),
             'gene_list': sorted(rng.sample(range(ng), rng.randint(1, ng))) if rng.random() < 0.3 else None,
             'P': rng.randint(1, 3), 'max_gb': rng.choice([1, 1e-3, 1e-7])}
     two_level = rng.random() < 0.5
